@@ -131,3 +131,53 @@ package state
 //@   ensures r == stNonce(s, addr)
 //@ trusted func (s *StateDB) GetBalance(addr common.Address) (r *big.Int)
 //@   ensures r != nil && r.v == stBal(s, addr)
+
+// ---------------------------------------------------------------- C08: reverting to a snapshot, arbitrarily nested
+// Ghost: the number of journal entries undone so far. Every entry's revert (verified per entry type
+// above for the entry types under contract) leaves the journal itself alone.
+//@ ghost field StateDB.undone mathint
+//@ trusted func (e journalEntry) revert(s *StateDB)
+//@   modifies *
+//@   ensures s.undone == old(s.undone) + 1
+//@   ensures s.journal == old(s.journal) && s.journal.entries == old(s.journal.entries) && s.journal.dirties == old(s.journal.dirties)
+//@   ensures forall k int :: 0 <= k && k < len(s.journal.entries) ==> s.journal.entries[k] == old(s.journal.entries[k])
+//@   ensures s.validRevisions == old(s.validRevisions) && (forall k int :: 0 <= k && k < len(s.validRevisions) ==> s.validRevisions[k] == old(s.validRevisions[k]))
+
+// journal.revert undoes exactly the entries from the end of the journal down to index `snapshot`,
+// newest first, each once, and truncates the journal to `snapshot` entries, keeping the older ones.
+//@ func (j *journal) revert(statedb *StateDB, snapshot int)
+//@   for C08
+//@   requires j != nil && statedb != nil && statedb.journal == j && j.dirties != nil && 0 <= snapshot && snapshot <= len(j.entries)
+//@   modifies *
+//@   atcall journalEntry.revert requires [newestFirstEachOnce] s == statedb && e == j.entries[i] && i == old(len(j.entries)) - 1 - (statedb.undone - old(statedb.undone))
+//@   ensures [undoesExactlyTheSuffix] statedb.undone == old(statedb.undone) + old(len(j.entries)) - snapshot
+//@   ensures [sameJournal] statedb.journal == j
+//@   ensures [truncatedOlderKept] len(j.entries) == snapshot && (forall k int :: 0 <= k && k < snapshot ==> j.entries[k] == old(j.entries[k]))
+//@   ensures [snapshotStackUntouched] statedb.validRevisions == old(statedb.validRevisions) && (forall k int :: 0 <= k && k < len(statedb.validRevisions) ==> statedb.validRevisions[k] == old(statedb.validRevisions[k]))
+//@   loop 1:
+//@     invariant statedb.validRevisions == old(statedb.validRevisions) && (forall k int :: 0 <= k && k < len(statedb.validRevisions) ==> statedb.validRevisions[k] == old(statedb.validRevisions[k]))
+//@     invariant snapshot - 1 <= i && i <= old(len(j.entries)) - 1
+//@     invariant statedb.undone == old(statedb.undone) + old(len(j.entries)) - 1 - i
+//@     invariant statedb.journal == j && j.entries == old(j.entries) && j.dirties != nil
+//@     invariant forall k int :: 0 <= k && k < len(j.entries) ==> j.entries[k] == old(j.entries[k])
+
+// Snapshot records the journal length under a fresh, increasing id.
+//@ func (s *StateDB) Snapshot() (id int)
+//@   for C08
+//@   requires s != nil && s.journal != nil && s.nextRevisionId < 9223372036854775807
+//@   modifies s.nextRevisionId, s.validRevisions, []revision
+//@   ensures [freshIncreasingId] id == old(s.nextRevisionId) && s.nextRevisionId == id + 1
+//@   ensures [recordsJournalLength] len(s.validRevisions) == old(len(s.validRevisions)) + 1 && s.validRevisions[old(len(s.validRevisions))].id == id && s.validRevisions[old(len(s.validRevisions))].journalIndex == len(s.journal.entries)
+//@   ensures [olderSnapshotsKept] forall k int :: 0 <= k && k < old(len(s.validRevisions)) ==> s.validRevisions[k] == old(s.validRevisions[k])
+
+// RevertToSnapshot reverts the journal to the length recorded for exactly the requested id and drops
+// that snapshot and every later one; earlier snapshots stay valid (nesting).
+//@ func (s *StateDB) RevertToSnapshot(revid int)
+//@   for C08
+//@   requires s != nil && s.journal != nil && s.journal.dirties != nil
+//@   requires forall k int :: 0 <= k && k < len(s.validRevisions) ==> 0 <= s.validRevisions[k].journalIndex && s.validRevisions[k].journalIndex <= len(s.journal.entries)
+//@   modifies *
+//@   ensures [thatSnapshotAndLaterDropped] len(s.validRevisions) == idx && idx < old(len(s.validRevisions)) && old(s.validRevisions[idx].id) == revid
+//@   ensures [earlierSnapshotsKept] forall k int :: 0 <= k && k < len(s.validRevisions) ==> s.validRevisions[k] == old(s.validRevisions[k])
+//@   ensures [journalAtRecordedLength] len(s.journal.entries) == old(s.validRevisions[idx].journalIndex)
+//@   atcall journal.revert requires [toTheRecordedLengthOfThatId] j == s.journal && statedb == s && (exists k int :: 0 <= k && k < len(s.validRevisions) && s.validRevisions[k].id == revid && snapshot == s.validRevisions[k].journalIndex)
